@@ -11,7 +11,9 @@ M1 (serialisation) — `BrokerState.to_serialized` / `BrokerState.from_serialize
 * collected buffers are kept;
 * waiters keep id, replay event, awaited type and resolved event; `requirements` are not
   serialisable: they come back empty with `has_requirements` remembering that there were some;
-  `timed_out` is kept (added by a repair in this tree).
+  `timed_out` is kept (added by a repair in this tree), and so is the attempt record of the
+  suspended invocation (attempts, first attempt time, last exception, last failure time, recovery
+  counts; added by the repair of the C08 wait-replay finding).
 Event payloads and exceptions are abstract ids here; their own round trip is property C18.
 -/
 namespace Engine
@@ -23,6 +25,11 @@ structure SerWaiter where
   hasReq : Bool
   resolved : Option Ev
   timedOut : Bool
+  attempts : Nat
+  firstAt : Option Int
+  lastExc : Option Nat
+  lastFailedAt : Option Int
+  rc : RC
 deriving DecidableEq, Repr
 
 structure SerStep where
@@ -36,7 +43,8 @@ def serAttempt (a : Attempt) : Attempt := { a with attempts := some (orNat a.att
 
 def serWaiter (w : Waiter) : SerWaiter :=
   { wid := w.wid, ev := w.ev, waitTy := w.waitTy, hasReq := w.req.isSome || w.hasReq,
-    resolved := w.resolved, timedOut := w.timedOut }
+    resolved := w.resolved, timedOut := w.timedOut, attempts := w.attempts, firstAt := w.firstAt,
+    lastExc := w.lastExc, lastFailedAt := w.lastFailedAt, rc := w.rc }
 
 def serStep (ss : StepState) : SerStep :=
   { queue := ss.queue.map serAttempt, inProg := ss.inProg.map (·.ev), collected := ss.collected,
@@ -44,7 +52,8 @@ def serStep (ss : StepState) : SerStep :=
 
 def deserWaiter (w : SerWaiter) : Waiter :=
   { wid := w.wid, ev := w.ev, waitTy := w.waitTy, req := none, hasReq := w.hasReq,
-    resolved := w.resolved, timedOut := w.timedOut }
+    resolved := w.resolved, timedOut := w.timedOut, attempts := w.attempts, firstAt := w.firstAt,
+    lastExc := w.lastExc, lastFailedAt := w.lastFailedAt, rc := w.rc }
 
 def deserStep (s : SerStep) : StepState :=
   { queue := s.queue ++ s.inProg.map (fun e => { ev := e, attempts := some 0, firstAt := none }),
